@@ -75,7 +75,10 @@ C03V(r) ==
     <<"end-not-before-start", \A k \in DOMAIN ob : Leq(ob[k].us, ob[k].eus)>>,
     <<"last-note-end-absent-iff-no-notes", (ob = <<>>) <=> (r.last = <<>>)>>,
     <<"last-note-end-is-max", ob # <<>> /\ r.last # <<>> =>
-                              r.last[1] = MaxBig([k \in DOMAIN ob |-> ob[k].eus])>>
+                              r.last[1] = MaxBig([k \in DOMAIN ob |-> ob[k].eus])>>,
+    \* (r.again: the note list read a second time, after the derived attributes, a rate query and the rendering were read)
+    <<"same-sustains-and-ends-when-read-again", Len(r.again) = Len(ob) /\ \A k \in DOMAIN ob :
+          r.again[k].su = ob[k].su /\ r.again[k].lg = ob[k].lg /\ r.again[k].et = ob[k].et /\ r.again[k].eus = ob[k].eus>>
   >>)
 
 (***************************** C04 *****************************************)
@@ -92,7 +95,8 @@ C04V(r) ==
   ELSE IF r.res < 1 THEN Skip("resolution")
   ELSE FirstFail(<<
     <<"hopo-state", \A k \in DOMAIN ob : ob[k].t \in TicksOf(nl) =>
-                       ob[k].h = HopoAt(nl, r.res, ob[k].t, PrevTick(nl, ob[k].t))>>
+                       ob[k].h = HopoAt(nl, r.res, ob[k].t, PrevTick(nl, ob[k].t))>>,
+    <<"same-hopo-states-when-read-again", Len(r.again) = Len(ob) /\ \A k \in DOMAIN ob : r.again[k].h = ob[k].h>>
   >>)
 
 (***************************** C05 *****************************************)
@@ -102,7 +106,8 @@ C05V(r) ==
   ELSE IF ~PhrasesSorted(sp) THEN Skip("phrases-not-sorted")
   ELSE IF ~(\A k \in 1..(Len(ob) - 1) : ob[k].t < ob[k+1].t) THEN Skip("notes-not-increasing")
   ELSE FirstFail(<<
-    <<"membership-half-open-first-phrase", \A k \in DOMAIN ob : ob[k].sp = SpOf(sp, ob[k].t)>>
+    <<"membership-half-open-first-phrase", \A k \in DOMAIN ob : ob[k].sp = SpOf(sp, ob[k].t)>>,
+    <<"same-membership-and-phrases-when-read-again", r.spagain = sp /\ Len(r.again) = Len(ob) /\ \A k \in DOMAIN ob : r.again[k].sp = ob[k].sp>>
   >>)
 
 (***************************** C01 *****************************************)
